@@ -10,8 +10,9 @@ def linkOf : Rlp.Item → Option Bytes
   | .bytes b => if b.length = 32 then some b else none
   | _ => none
 
-/-- `refs` instance for ompt node payloads (what `deserialize` + `resolve` visit). -/
-def omptRefs (payload : Bytes) : Option (List Bytes) :=
+/-- children of an ompt node payload that are hash links, in the order `resolve` visits them
+    (what `deserialize` + `branch.resolve`/`extension.resolve` ask for); `none` = not a node. -/
+def omptLinks (payload : Bytes) : Option (List Bytes) :=
   match Rlp.decodeItem payload with
   | some (.list xs, []) =>
     if xs.length = 17 then some ((xs.take 16).filterMap linkOf)
@@ -28,35 +29,42 @@ def valRef : Rlp.Item → Option Bytes
   | .bytes (t :: h) => if t = 0x01 ∧ h.length = 32 then some h else none
   | _ => none
 
-/-- `refs` instance for object-valued tries of the harness (values may refer to a blob in the
-    BytesByHash bucket, requested by the object's `Resolve` after the children of the node):
-    branch: children 0..15 then the branch value; leaf: its value; blob payloads (first byte 0)
-    refer to nothing. -/
-def omptRefsObj (payload : Bytes) : Option (List Bytes) :=
-  match payload with
-  | 0x00 :: _ => some []
-  | _ =>
-    match Rlp.decodeItem payload with
-    | some (.list xs, []) =>
-      if xs.length = 17 then
-        some ((xs.take 16).filterMap linkOf ++ ((xs.drop 16).head?.bind valRef).toList)
-      else if xs.length = 2 then
-        match xs with
-        | [.bytes (h :: _), nxt] =>
-          if h &&& 0x20 = 0 then some ((linkOf nxt).toList) else some ((valRef nxt).toList)
-        | _ => none
-      else none
-    | _ => none
+/-- the blob the node's own value refers to (branch value / leaf value), requested by the
+    object's `Resolve` after the children of the node -/
+def omptValRef (payload : Bytes) : List Bytes :=
+  match Rlp.decodeItem payload with
+  | some (.list xs, []) =>
+    if xs.length = 17 then ((xs.drop 16).head?.bind valRef).toList
+    else match xs with
+      | [.bytes (h :: _), v] => if h &&& 0x20 = 0 then [] else (valRef v).toList
+      | _ => []
+  | _ => []
 
-def cfg : Cfg := { H := sha3_256, refs := omptRefs }
-def cfgObj : Cfg := { H := sha3_256, refs := omptRefsObj }
+def bTrie : Bkt := 0   -- db.MerkleTrie
+def bBlob : Bkt := 1   -- db.BytesByHash
+
+/-- `refs` for bytes-valued tries: a trie-node requester asks for its children in the trie
+    bucket (`bytesObject.Resolve` is a no-op); nothing else is ever requested. -/
+def refsBytes (b : Bkt) (payload : Bytes) : Option (List Ref) :=
+  if b == bTrie then (omptLinks payload).map (·.map fun h => (bTrie, h)) else some []
+
+/-- `refs` for the object-valued tries of the harness: children in the trie bucket, then the blob
+    of the node's value in the blob bucket; the requester of a blob (the object, `OnData` returns
+    nil) asks for nothing, whatever the payload is. -/
+def refsObj (b : Bkt) (payload : Bytes) : Option (List Ref) :=
+  if b == bTrie then
+    (omptLinks payload).map fun ls =>
+      ls.map (fun h => (bTrie, h)) ++ (omptValRef payload).map (fun h => (bBlob, h))
+  else some []
+
+def cfg : Cfg := { H := sha3_256, refs := refsBytes }
+def cfgObj : Cfg := { H := sha3_256, refs := refsObj }
 
 def short (b : Bytes) : String := Hex.encode (b.take 4)
 
-def refsWire : Option (List Bytes) → String
-  | none => "X"
-  | some [] => "-"
-  | some rs => String.intercalate "," (rs.map Hex.encode)
+def refsWire : List Ref → String
+  | [] => "-"
+  | rs => String.intercalate "," (rs.map fun r => Hex.encode r.2)
 
 /-- insertion sort of strings (request order is canonicalised away: it is not part of the property) -/
 def insertSorted (x : String) : List String → List String
@@ -65,11 +73,15 @@ def insertSorted (x : String) : List String → List String
 
 def sortStrings (l : List String) : List String := l.foldr insertSorted []
 
+/-- a request is shown as the first bytes of its key and the buckets of its requesters in
+    registration order -/
+def showReq (r : Req) : String := short r.key ++ "/" ++ String.join (r.bkts.map toString)
+
 def render (tag : String) (s : St) : String :=
-  let rs := String.intercalate "," (sortStrings (s.reqs.map short))
+  let rs := String.intercalate "," (sortStrings (s.reqs.map showReq))
   s!"{tag} {s.reqs.length} {s.resolved} {if rs.isEmpty then "-" else rs}"
 
-def distinctKeys (st : List (Bytes × Bytes)) : Nat := (st.map (·.1)).eraseDups.length
+def distinctPairs (st : List Entry) : Nat := (st.map fun e => (e.1, e.2.1)).eraseDups.length
 
 structure DS where
   s : St := {}
@@ -84,29 +96,35 @@ def step (d : DS) (toks : List String) : DS × String :=
   | [b, r] =>
     if b == "begin" || b == "begin-obj" then
       if d.started then (d, "bad-op") else
+      let c := if b == "begin-obj" then cfgObj else cfg
       match Hex.decodeWire r with
-      | some [] => let s' := start {} none; ({ s := s', started := true, obj := b == "begin-obj" }, render "ok" s')
-      | some rb => let s' := start {} (some rb); ({ s := s', started := true, obj := b == "begin-obj" }, render "ok" s')
+      | some [] => let s' := start c {} none; ({ s := s', started := true, obj := b == "begin-obj" }, render "ok" s')
+      | some rb => let s' := start c {} (some rb); ({ s := s', started := true, obj := b == "begin-obj" }, render "ok" s')
       | none => (d, "bad-op")
     else if b == "data" || b == "datab" then
-      -- one hasher (sha3) serves both buckets, so the request map is shared: the bucket of a
-      -- delivery does not matter to acceptance
+      -- `data` = OnData(db.MerkleTrie, v), `datab` = OnData(db.BytesByHash, v)
       if !d.started then (d, "bad-op") else
       match Hex.decodeWire r with
       | some vb =>
         let c := if d.obj then cfgObj else cfg
-        let (s', res) := onData c d.s vb
+        let bid := if b == "datab" then bBlob else bTrie
+        -- what the served requesters ask for, in serving order (for the `refs=` cross-check)
+        let k := c.H vb
+        let asked := match d.s.reqs.find? (·.key == k) with
+          | none => []
+          | some rq => rq.bkts.flatMap fun bk => (c.refs bk vb).getD []
+        let (s', res) := onData c d.s bid vb
         let tag := match res with
           | .ok => "ok"
           | .noRequester => "norequester"
           | .decodeError => "err"
-        ({ d with s := s' }, if res == .ok then render tag s' ++ " refs=" ++ refsWire (c.refs vb) else render tag s')
+        ({ d with s := s' }, if res == .ok then render tag s' ++ " refs=" ++ refsWire asked else render tag s')
       | none => (d, "bad-op")
     else (d, "bad-op")
   | ["finish"] =>
     if !d.started then (d, "bad-op") else
-    if d.s.reqs.isEmpty then (d, s!"complete {distinctKeys d.s.store}")
-    else (d, s!"incomplete {d.s.reqs.length} {distinctKeys d.s.store}")
+    if d.s.reqs.isEmpty then (d, s!"complete {distinctPairs d.s.store}")
+    else (d, s!"incomplete {d.s.reqs.length} {distinctPairs d.s.store}")
   | _ => (d, "bad-op")
 
 end Goloop.Driver.C20
